@@ -24,16 +24,31 @@ import (
 
 const (
 	procEcho   = "echo"   // rate-limited with the scenario's (limit, penalty)
+	procEcho2  = "echo2"  // further echo procedures with their OWN (limit, penalty): every procedure has its own counter
+	procEcho3  = "echo3"  // per peer, so traffic within the limit of every single procedure is legal whatever the sum is
 	procStrict = "strict" // application handler that penalises/bans the sender like the sync/txpool handlers do
 )
+
+// echoProcs: the rate-limited echo procedures, index = eev.Proc.
+var echoProcs = []string{procEcho, procEcho2, procEcho3}
+
+func procIndex(proc string) int {
+	for i, p := range echoProcs {
+		if p == proc {
+			return i
+		}
+	}
+	return -1
+}
 
 // sigF1: known finding C18-F1 (ban issued by the message protocol itself does not close the connection).
 const sigF1 = "ban-without-disconnect:message-protocol-envelope"
 
 type eev struct {
-	Kind  string // req | burst | badreq | badres | unkreq | unkres | app | dial | drop | await | resetwait
+	Kind  string // req | burst | mix | over | badreq | badres | unkreq | unkres | app | dial | drop | await | resetwait
 	From  int
 	To    int
+	Proc  int    // req/burst/over: index into echoProcs
 	Burst string // within | tolimit | over1 | over
 	Extra int
 	K     int // app: penalty amount, 0 = BanPeer
@@ -57,7 +72,33 @@ type escn struct {
 	DialOnly int // index of a node started without listen addresses (it can only dial out; peers see it as 127.0.0.1), -1: none
 	Shared   bool  // several nodes on ONE IP address (same 127.0.0.x / ::1, different ports): the group below
 	Group    []int // nodes that share the address (>= 2 when Shared)
+	PL       []int // limits of echoProcs (PL[0] == Limit); empty: all procedures use Limit
+	PP       []int // penalties of echoProcs (PP[0] == Penalty); empty: all use Penalty
+	RateMs   int   // legal / mirror scenarios: rate-limit interval in ms (0: 250)
+	Mirror   bool  // short rate-limit interval AND offences: node 1 exceeds the limit of ONE procedure of node 0 right after an observed counter reset
+	Multi    bool  // a peer with several simultaneous connections to node 0 (multiconn_test.go)
+	MC       []mcycle
 	Events   []eev
+}
+
+// lim: (limit, penalty) that node x applies to procedure proc. In a mirror scenario only node 0 uses the drawn limits, the
+// other nodes are generous (their counters of responses never matter).
+func (s *escn) lim(x int, proc string) (int, int) {
+	if proc == procStrict {
+		return 100, 10
+	}
+	i := procIndex(proc)
+	L, P := s.Limit, s.Penalty
+	if i >= 0 && i < len(s.PL) {
+		L = s.PL[i]
+	}
+	if i >= 0 && i < len(s.PP) {
+		P = s.PP[i]
+	}
+	if s.Mirror && x != 0 {
+		L = 1000 * L
+	}
+	return L, P
 }
 
 func genMalformed(t *rapid.T) []byte {
@@ -80,6 +121,16 @@ func genScenario() *rapid.Generator[escn] {
 	return rapid.Custom(func(t *rapid.T) escn {
 		var s escn
 		s.On = rapid.IntRange(0, 15).Draw(t, "on") > 0
+		// flavours added later: a peer with several simultaneous connections (1 in 5), one procedure's limit exceeded
+		// right after observed counter resets while the other procedures carry legal traffic (1 in 10)
+		switch f := rapid.IntRange(0, 19).Draw(t, "flavour"); {
+		case f < 4:
+			genMulti(t, &s)
+			return s
+		case f < 6:
+			genMirror(t, &s)
+			return s
+		}
 		s.Legal = rapid.IntRange(0, 3).Draw(t, "legal") == 0
 		s.V6 = rapid.IntRange(0, 4).Draw(t, "v6") == 0
 		s.N = rapid.SampledFrom([]int{2, 2, 3}).Draw(t, "nodes")
@@ -101,6 +152,12 @@ func genScenario() *rapid.Generator[escn] {
 		s.SweepMs = rapid.SampledFrom([]int{50, 100, 200}).Draw(t, "sweepMs")
 		s.Limit = rapid.IntRange(2, 6).Draw(t, "limit")
 		s.Penalty = rapid.SampledFrom([]int{10, 25, 34, 50, 99, 100, 120}).Draw(t, "penalty")
+		// every procedure has its own limit and penalty
+		s.PL, s.PP = []int{s.Limit}, []int{s.Penalty}
+		for i := 1; i < len(echoProcs); i++ {
+			s.PL = append(s.PL, rapid.IntRange(2, 6).Draw(t, "limitN"))
+			s.PP = append(s.PP, rapid.SampledFrom([]int{10, 25, 34, 50, 99, 100, 120}).Draw(t, "penaltyN"))
+		}
 		s.BlackOf = -1
 		if rapid.IntRange(0, 3).Draw(t, "blacklist") == 0 {
 			s.BlackBy = rapid.IntRange(0, s.N-1).Draw(t, "blackBy")
@@ -119,14 +176,36 @@ func genScenario() *rapid.Generator[escn] {
 			e.To = (e.From + 1 + rapid.IntRange(0, s.N-2).Draw(t, "to")) % s.N
 		}
 		if s.Legal {
+			// Legal traffic only, spread over all procedures: every procedure stays within ITS limit while the sum over
+			// the procedures exceeds single limits, before the first reset tick of the rate limiter and after observed
+			// resets (short interval).
+			s.RateMs = rapid.SampledFrom([]int{250, 250, 600, 1500}).Draw(t, "rateMs")
+			mix := func() eev {
+				e := eev{Kind: "mix"}
+				pair(&e)
+				e.Burst = rapid.SampledFrom([]string{"within", "tolimit", "tolimit"}).Draw(t, "burst")
+				e.Extra = rapid.IntRange(0, 5).Draw(t, "extra")
+				e.Bytes = rapid.SliceOfN(rapid.Byte(), 24, 24).Draw(t, "order")
+				return e
+			}
+			s.Events = append(s.Events, mix()) // right away: (normally) before the first tick
 			n := rapid.IntRange(3, 12).Draw(t, "nEvents")
 			for i := 0; i < n; i++ {
-				e := eev{Kind: rapid.SampledFrom([]string{"req", "burst", "burst", "dial", "drop", "resetwait"}).Draw(t, "kind")}
+				e := eev{Kind: rapid.SampledFrom([]string{"req", "burst", "burst", "mix", "mix", "mix", "dial", "drop", "resetwait"}).Draw(t, "kind")}
+				if e.Kind == "mix" {
+					s.Events = append(s.Events, mix())
+					continue
+				}
 				pair(&e)
+				e.Proc = rapid.IntRange(0, len(echoProcs)-1).Draw(t, "proc")
 				e.Burst = rapid.SampledFrom([]string{"within", "tolimit", "tolimit"}).Draw(t, "burst")
 				e.Extra = rapid.IntRange(0, 5).Draw(t, "extra")
 				s.Events = append(s.Events, e)
 			}
+			// and certainly after a reset: every procedure filled exactly to its limit
+			last := mix()
+			last.Burst = "tolimit"
+			s.Events = append(s.Events, eev{Kind: "resetwait", From: last.From, To: last.To}, last)
 			return s
 		}
 		// offence scenario: a few life cycles "misbehave until banned, try to connect both ways, wait, reconnect"
@@ -154,10 +233,12 @@ func genScenario() *rapid.Generator[escn] {
 				e.Burst = rapid.SampledFrom([]string{"within", "tolimit", "over1", "over"}).Draw(t, "burst")
 				e.Extra = rapid.IntRange(0, s.Limit+2).Draw(t, "extra")
 				e.K = rapid.IntRange(1, 60).Draw(t, "k")
+				e.Proc = rapid.SampledFrom([]int{0, 0, 1, 2}).Draw(t, "proc")
 				s.Events = append(s.Events, e)
 			}
 			e := eev{From: off.From, To: off.To}
 			e.Kind = rapid.SampledFrom([]string{"badreq", "badres", "unkreq", "unkres", "app", "app", "burst", "burst"}).Draw(t, "offence")
+			e.Proc = rapid.SampledFrom([]int{0, 0, 1, 2}).Draw(t, "proc")
 			e.Burst = "over"
 			e.Extra = rapid.IntRange(0, 3*(s.Limit+1)).Draw(t, "extra")
 			e.K = rapid.SampledFrom([]int{0, 0, 40, 99, 100, 120}).Draw(t, "k")
@@ -319,6 +400,69 @@ func genSiblingCycle(t *rapid.T, s *escn) {
 	add(eev{Kind: "app", From: first, To: v, K: rapid.IntRange(1, 30).Draw(t, "kAfter2")})
 }
 
+// rateInterval: the rate-limit interval of a legal / mirror scenario.
+func (s *escn) rateInterval() time.Duration {
+	if s.RateMs > 0 {
+		return time.Duration(s.RateMs) * time.Millisecond
+	}
+	return 250 * time.Millisecond
+}
+
+// legalSem: scenarios with a short rate-limit interval. The harness does not know when a node resets its counters, so
+// its own counts (reset only when a reset was OBSERVED) are an upper bound of the node's: traffic that is within the
+// limits by these counts is legal whenever the resets happen.
+func (s *escn) legalSem() bool { return s.Legal || s.Mirror }
+
+// genMirror: "exceeding ONE procedure's limit is still penalised after resets" next to legal traffic on the other
+// procedures. Two nodes; node 0 applies the drawn limits, node 1 (generous limits) sends. Rate-limit interval 1 s.
+// Script: legal mix (before the first tick) -> [wait for an observed reset edge at node 0, then limit+1 messages of one
+// procedure interleaved with legal amounts of the others: exactly one penalty of that procedure] x until the penalties
+// add up to the threshold -> the ban consequences as in every offence scenario -> legal mix -> small penalty.
+func genMirror(t *rapid.T, s *escn) {
+	s.Mirror = true
+	s.N = 2
+	perm := rapid.Permutation([]int{2, 3, 4, 5, 6, 7, 8, 9}).Draw(t, "octets")
+	s.IPs = append([]int{}, perm[:s.N]...)
+	s.V6 = rapid.IntRange(0, 5).Draw(t, "v6") == 0
+	s.Security = rapid.SampledFrom([]string{p2p.ConnectionSecurityNone, p2p.ConnectionSecurityTLS, p2p.ConnectionSecurityNoise}).Draw(t, "security")
+	s.ExpiryS = rapid.SampledFrom([]int{1, 1, 2}).Draw(t, "expiryS")
+	s.SweepMs = rapid.SampledFrom([]int{50, 100, 200}).Draw(t, "sweepMs")
+	s.RateMs = 1000
+	s.BlackOf, s.DialOnly = -1, -1
+	for i := 0; i < len(echoProcs); i++ {
+		s.PL = append(s.PL, rapid.IntRange(2, 6).Draw(t, "limitN"))
+		s.PP = append(s.PP, rapid.SampledFrom([]int{34, 50, 50, 100, 120}).Draw(t, "penaltyN"))
+	}
+	s.Limit, s.Penalty = s.PL[0], s.PP[0]
+	mix := func() eev {
+		return eev{Kind: "mix", From: 1, To: 0, Burst: rapid.SampledFrom([]string{"within", "tolimit", "tolimit"}).Draw(t, "burst"),
+			Extra: rapid.IntRange(0, 5).Draw(t, "extra"), Bytes: rapid.SliceOfN(rapid.Byte(), 24, 24).Draw(t, "order")}
+	}
+	s.Events = append(s.Events, mix())
+	total := 0
+	for total < threshold {
+		k := rapid.IntRange(0, len(echoProcs)-1).Draw(t, "overProc")
+		e := eev{Kind: "over", From: 1, To: 0, Proc: k, Burst: rapid.SampledFrom([]string{"within", "tolimit"}).Draw(t, "others"),
+			Extra: rapid.IntRange(0, 5).Draw(t, "extra"), Bytes: rapid.SliceOfN(rapid.Byte(), 24, 24).Draw(t, "order")}
+		s.Events = append(s.Events, e)
+		total += s.PP[k]
+		if total < threshold && rapid.Bool().Draw(t, "mixBetween") {
+			s.Events = append(s.Events, mix())
+		}
+	}
+	for i := rapid.IntRange(1, 2).Draw(t, "nDials"); i > 0; i-- {
+		d := eev{Kind: "dial", From: 1, To: 0}
+		if rapid.Bool().Draw(t, "reverse") {
+			d.From, d.To = 0, 1
+		}
+		s.Events = append(s.Events, d)
+	}
+	s.Events = append(s.Events, eev{Kind: "await", From: 1, To: 0}, eev{Kind: "dial", From: 1, To: 0}, eev{Kind: "resetwait", From: 1, To: 0})
+	last := mix()
+	last.Burst = "tolimit"
+	s.Events = append(s.Events, last, eev{Kind: "app", From: 1, To: 0, K: rapid.IntRange(1, 30).Draw(t, "kAfter")})
+}
+
 // preState: what the receiver of a possibly offending message stored for the sender's IP just before the message.
 type preState struct {
 	x, y      int
@@ -350,6 +494,10 @@ type erun struct {
 	res   *seqResult
 	seq   int
 	pre   map[[2]int]*preState // snapshots taken right before the last message that may earn a penalty (consumed by expectPenalty)
+	// legal / mirror scenarios
+	started    time.Time // all nodes started (their rate limiters tick from about here)
+	firstReset bool      // a counter reset was observed at least one interval after the start
+	mp         *mpeer    // multi-connection scenarios
 }
 
 // snap records what x stores about y's IP (and whether y is connected) right now.
@@ -387,7 +535,7 @@ func (r *erun) setup() error {
 	sweep := time.Duration(s.SweepMs) * time.Millisecond
 	id := scenarioSeq.Add(1)
 	for i := 0; i < s.N; i++ {
-		n := &enode{idx: i, cnt: map[string]map[int]int{procEcho: {}, procStrict: {}}, cause: map[int]string{}, banBy: map[string]int{}, contrib: map[string]map[int]bool{}}
+		n := &enode{idx: i, cnt: map[string]map[int]int{procEcho: {}, procEcho2: {}, procEcho3: {}, procStrict: {}}, cause: map[int]string{}, banBy: map[string]int{}, contrib: map[string]map[int]bool{}}
 		var addr string
 		if s.V6 {
 			n.ip = "::1"
@@ -419,8 +567,11 @@ func (r *erun) setup() error {
 		c := p2p.NewConnection(nopLogger{}, cfg)
 		n.conn = c
 		n.bm = newBanModel(expiry, sweep, bl)
-		if err := c.RegisterRPCHandler(procEcho, func(w p2p.ResponseWriter, req *p2p.Request) { w.Write(req.Data) }, p2p.WithRPCMessageCounter(s.Limit, s.Penalty)); err != nil {
-			return err
+		for _, proc := range echoProcs {
+			L, P := s.lim(i, proc)
+			if err := c.RegisterRPCHandler(proc, func(w p2p.ResponseWriter, req *p2p.Request) { w.Write(req.Data) }, p2p.WithRPCMessageCounter(L, P)); err != nil {
+				return err
+			}
 		}
 		if err := c.RegisterRPCHandler(procStrict, func(w p2p.ResponseWriter, req *p2p.Request) {
 			// like sync.HandleRPCEndpoint*: an invalid request penalises or bans the sender through the public API
@@ -435,8 +586,8 @@ func (r *erun) setup() error {
 		}); err != nil {
 			return err
 		}
-		if s.Legal {
-			c.VerifSetRateLimitInterval(250 * time.Millisecond)
+		if s.Legal || s.Mirror {
+			c.VerifSetRateLimitInterval(s.rateInterval())
 		} else {
 			c.VerifSetRateLimitInterval(time.Hour) // no reset inside an offence scenario: the counter model is exact
 		}
@@ -839,10 +990,8 @@ func (r *erun) afterBan(x, y int, cause string, note string) string {
 // request sends one well-formed request a -> b and applies the rate-limit model on both sides.
 func (r *erun) request(a, b int, proc string, data []byte) string {
 	A, B := r.nodes[a], r.nodes[b]
-	L, P := r.s.Limit, r.s.Penalty
-	if proc == procStrict {
-		L, P = 100, 10
-	}
+	L, P := r.s.lim(b, proc)   // what b applies to a's requests
+	LA, PA := r.s.lim(a, proc) // what a applies to b's responses
 	// prediction at b (request) and at a (response)
 	B.cnt[proc][a]++
 	penB := B.cnt[proc][a] > L
@@ -921,15 +1070,21 @@ func (r *erun) request(a, b int, proc string, data []byte) string {
 	}
 	if !answered {
 		r.logf("request %s -> %s %s unanswered: %v", r.name(a), r.name(b), proc, resp.Error())
+		// a request within the limits that is not served: if somebody earned a score for it, that is the violation
+		// (a false penalty that reached the threshold closes the connection before the answer)
+		waitBeats(20)
+		if v := r.checkScores(fmt.Sprintf("after the request %s -> %s %s (within the limits by the model: no penalty expected) stayed unanswered", r.name(a), r.name(b), proc)); v != "" {
+			return v
+		}
 		r.res.infra = "a request that the model expects to be served was not answered: " + resp.Error().Error()
 		return ""
 	}
 	// response counted at a
 	A.cnt[proc][b]++
-	if A.cnt[proc][b] > L {
+	if A.cnt[proc][b] > LA {
 		A.cnt[proc][b] = 0
 		r.res.labels["rate-penalty-on-responder"] = true
-		if v := r.expectPenalty(a, b, P, "rate-limit-responses("+proc+")", t0); v != "" {
+		if v := r.expectPenalty(a, b, PA, "rate-limit-responses("+proc+")", t0); v != "" {
 			return v
 		}
 	}
@@ -965,6 +1120,168 @@ func (r *erun) checkScores(when string) string {
 	return ""
 }
 
+// headroom: how many further messages of proc a may send to b (and b answer) without anybody exceeding the limit, by
+// the harness's counts.
+func (r *erun) headroom(a, b int, proc string) int {
+	A, B := r.nodes[a], r.nodes[b]
+	LB, _ := r.s.lim(b, proc)
+	LA, _ := r.s.lim(a, proc)
+	h := LB - B.cnt[proc][a]
+	if x := LA - A.cnt[proc][b]; x < h {
+		h = x
+	}
+	return h
+}
+
+// interleave: counts[k] copies of k in an order fixed by the drawn bytes.
+func interleave(counts []int, rnd []byte) []int {
+	var out []int
+	for k, n := range counts {
+		for i := 0; i < n; i++ {
+			out = append(out, k)
+		}
+	}
+	for i := len(out) - 1; i > 0; i-- {
+		x := 0
+		if len(rnd) > 0 {
+			x = int(rnd[i%len(rnd)])
+		}
+		j := x % (i + 1)
+		out[i], out[j] = out[j], out[i]
+	}
+	return out
+}
+
+// awaitCountersZero: all message counters of all rate-limited procedures are seen at zero on all nodes at once (every
+// node went through a reset since the last message); the harness's counts restart as well.
+func (r *erun) awaitCountersZero() bool {
+	ok := waitFor(10*time.Second, func() bool {
+		for x, X := range r.nodes {
+			for y, Y := range r.nodes {
+				if x == y {
+					continue
+				}
+				for _, proc := range echoProcs {
+					if X.conn.VerifRateCounter(proc, Y.conn.ID()) != 0 {
+						return false
+					}
+				}
+			}
+		}
+		return true
+	})
+	if !ok {
+		return false
+	}
+	if time.Since(r.started) >= r.s.rateInterval() {
+		r.firstReset = true
+	}
+	for _, X := range r.nodes {
+		for _, proc := range echoProcs {
+			X.cnt[proc] = map[int]int{}
+		}
+	}
+	return true
+}
+
+// overAfterReset (mirror scenarios): a exceeds the limit of ONE procedure at b by one message, next to legal amounts of
+// the other procedures, all inside one counter window of b: exactly one penalty of that procedure is due - also after
+// any number of resets. The window is found by observation: a marker message is sent and b's counter for it is polled
+// until it drops to zero (the reset tick happened between the last two polls); the next tick is at least one interval
+// after that, and everything has to be sent well before (else the event is given up: nothing is sent that could be
+// illegal or unpenalised by bad luck).
+func (r *erun) overAfterReset(e eev) string {
+	a, b := e.From, e.To
+	ok, v := r.ensureConnected(a, b)
+	if v != "" || !ok || r.res.infra != "" {
+		return v
+	}
+	A, B := r.nodes[a], r.nodes[b]
+	proc := echoProcs[e.Proc%len(echoProcs)]
+	interval := r.s.rateInterval()
+	margin := 350 * time.Millisecond
+	// the marker: one legal message of a procedure that has room for it (else wait for a reset first)
+	marker := ""
+	for _, p := range echoProcs {
+		if marker == "" && r.headroom(a, b, p) >= 1 {
+			marker = p
+		}
+	}
+	if marker == "" {
+		if !r.awaitCountersZero() {
+			r.res.infra = "rate counters were not reset within 10 s"
+			return ""
+		}
+		marker = proc
+	}
+	lower := time.Now() // no tick of b before this instant can have been the one that removes the marker
+	if v := r.request(a, b, marker, []byte("marker")); v != "" || r.res.infra != "" {
+		return v
+	}
+	edge := waitFor(10*time.Second, func() bool {
+		if B.conn.VerifRateCounter(marker, A.conn.ID()) == 0 {
+			return true
+		}
+		lower = time.Now()
+		return false
+	})
+	if !edge {
+		r.res.infra = "marker message was not reset within 10 s"
+		return ""
+	}
+	seen := time.Now()
+	deadline := lower.Add(interval - margin)
+	if time.Since(r.started) >= interval {
+		r.firstReset = true
+	}
+	// b's counters for a are zero now, exactly
+	for _, p := range echoProcs {
+		B.cnt[p][a] = 0
+	}
+	L, P := r.s.lim(b, proc)
+	var counts []int
+	for k, p := range echoProcs {
+		h := r.headroom(a, b, p)
+		n := h
+		if e.Burst == "within" && h >= 1 {
+			n = 1 + e.Extra%h
+		}
+		if k == e.Proc%len(echoProcs) {
+			n = L + 1
+		}
+		if n < 0 {
+			n = 0
+		}
+		counts = append(counts, n)
+	}
+	order := interleave(counts, e.Bytes)
+	r.logf("over %s -> %s right after an observed reset of %s's counters (tick between +%.3fs and +%.3fs, interval %v): %v requests of %v in the order %v; limits %v: one penalty of %d for %s is due",
+		r.name(a), r.name(b), r.name(b), lower.Sub(r.start).Seconds(), seen.Sub(r.start).Seconds(), interval, counts, echoProcs, order, r.s.PL, P, proc)
+	r.res.labels["over-one-procedure-after-reset"] = true
+	before := B.bm.get(A.ip).score
+	for i, k := range order {
+		if r.zone(a, b) != "clean" || r.zone(b, a) != "clean" || !r.connected(a, b) {
+			break
+		}
+		if time.Now().After(deadline) {
+			// too slow for this window: from here on the harness's counts are upper bounds again; stop sending
+			r.logf("over: window nearly used up after %d of %d requests, event given up", i, len(order))
+			r.res.labels["over-given-up-slow"] = true
+			return ""
+		}
+		if v := r.request(a, b, echoProcs[k], []byte{byte(i)}); v != "" || r.res.infra != "" {
+			return v
+		}
+	}
+	if st := B.bm.get(A.ip); st.banned || st.score == before+P {
+		r.res.labels["one-procedure-over-its-limit-penalised-after-reset"] = true
+		if r.firstReset {
+			r.res.labels["one-procedure-over-its-limit-penalised-after-the-first-tick"] = true
+		}
+	}
+	return ""
+}
+
 func (r *erun) runEvent(e eev) string {
 	a, b := e.From, e.To
 	A, B := r.nodes[a], r.nodes[b]
@@ -974,22 +1291,21 @@ func (r *erun) runEvent(e eev) string {
 		if v != "" || !ok || r.res.infra != "" {
 			return v
 		}
+		proc := echoProcs[e.Proc%len(echoProcs)]
 		// a single request is legal only while it stays within the limit
-		if r.s.Legal && (B.cnt[procEcho][a] >= r.s.Limit || A.cnt[procEcho][b] >= r.s.Limit) {
+		if r.s.legalSem() && r.headroom(a, b, proc) < 1 {
 			return ""
 		}
-		r.logf("request %s -> %s echo", r.name(a), r.name(b))
-		return r.request(a, b, procEcho, []byte("hello"))
+		r.logf("request %s -> %s %s", r.name(a), r.name(b), proc)
+		return r.request(a, b, proc, []byte("hello"))
 	case "burst":
 		ok, v := r.ensureConnected(a, b)
 		if v != "" || !ok || r.res.infra != "" {
 			return v
 		}
-		used := B.cnt[procEcho][a]
-		if A.cnt[procEcho][b] > used {
-			used = A.cnt[procEcho][b]
-		}
-		h := r.s.Limit - used
+		proc := echoProcs[e.Proc%len(echoProcs)]
+		L, P := r.s.lim(b, proc)
+		h := r.headroom(a, b, proc)
 		n := 0
 		switch e.Burst {
 		case "within":
@@ -1003,12 +1319,13 @@ func (r *erun) runEvent(e eev) string {
 		default:
 			n = h + 1 + e.Extra
 		}
-		if r.s.Legal && n > h {
+		if r.s.legalSem() && n > h {
 			n = h
 		}
-		r.logf("burst %s -> %s: %d echo requests (headroom %d of limit %d, penalty %d)", r.name(a), r.name(b), n, h, r.s.Limit, r.s.Penalty)
+		r.logf("burst %s -> %s: %d %s requests (headroom %d of limit %d, penalty %d)", r.name(a), r.name(b), n, proc, h, L, P)
 		if n > h {
 			r.res.labels["burst-above-limit"] = true
+			r.res.labels["burst-above-limit:"+proc] = true
 		} else if n == h && n > 0 {
 			r.res.labels["burst-exactly-to-limit"] = true
 		}
@@ -1021,11 +1338,70 @@ func (r *erun) runEvent(e eev) string {
 			} else if r.zone(a, b) != "clean" || r.zone(b, a) != "clean" || !r.connected(a, b) {
 				break // banned meanwhile
 			}
-			if v := r.request(a, b, procEcho, []byte{byte(i)}); v != "" || r.res.infra != "" {
+			if v := r.request(a, b, proc, []byte{byte(i)}); v != "" || r.res.infra != "" {
 				return v
 			}
 		}
 		return ""
+	case "mix":
+		// legal traffic over ALL procedures, interleaved: every procedure stays within its own limit, the sum does not care
+		ok, v := r.ensureConnected(a, b)
+		if v != "" || !ok || r.res.infra != "" {
+			return v
+		}
+		var counts []int
+		total, minL, full := 0, 1<<30, 0
+		for _, proc := range echoProcs {
+			h := r.headroom(a, b, proc)
+			n := h
+			if e.Burst == "within" && h >= 1 {
+				n = 1 + e.Extra%h
+			}
+			if n < 0 {
+				n = 0
+			}
+			if L, _ := r.s.lim(b, proc); L < minL {
+				minL = L
+			}
+			if n == h && n > 0 {
+				full++
+			}
+			counts = append(counts, n)
+			total += n
+		}
+		order := interleave(counts, e.Bytes)
+		r.logf("mix %s -> %s: %v requests of %v in the order %v (each within the limit of its own procedure; limits %v)", r.name(a), r.name(b), counts, echoProcs, order, r.s.PL)
+		sentBefore := r.firstReset
+		for i, k := range order {
+			if r.zone(a, b) != "clean" || r.zone(b, a) != "clean" || !r.connected(a, b) {
+				break
+			}
+			if v := r.request(a, b, echoProcs[k], []byte{byte(i)}); v != "" || r.res.infra != "" {
+				return v
+			}
+		}
+		if total > minL {
+			r.res.labels["legal-mix:sum-over-procedures-exceeds-a-single-limit"] = true
+			if sentBefore {
+				r.res.labels["legal-mix:sum-exceeds-a-single-limit-after-an-observed-reset"] = true
+			} else if time.Since(r.start) < r.s.rateInterval() {
+				r.res.labels["legal-mix:sum-exceeds-a-single-limit-before-the-first-tick"] = true
+			}
+		}
+		if full >= 2 {
+			r.res.labels["legal-mix:two-or-more-procedures-filled-exactly-to-their-limits"] = true
+		}
+		// legal traffic: still connected, not listed (the scores are compared after every event)
+		for _, p := range [][2]int{{b, a}, {a, b}} {
+			if r.zone(p[0], p[1]) == "clean" {
+				if v, _ := r.listedOnce(p[0], p[1]); v != "" {
+					return "after legal traffic: " + v
+				}
+			}
+		}
+		return ""
+	case "over":
+		return r.overAfterReset(e)
 	case "app":
 		ok, v := r.ensureConnected(a, b)
 		if v != "" || !ok || r.res.infra != "" {
@@ -1116,34 +1492,24 @@ func (r *erun) runEvent(e eev) string {
 		}
 		return ""
 	case "resetwait":
-		if !r.s.Legal {
+		if !r.s.legalSem() {
 			return ""
 		}
-		ok := waitFor(10*time.Second, func() bool {
-			for x, X := range r.nodes {
-				for y, Y := range r.nodes {
-					if x != y && X.conn.VerifRateCounter(procEcho, Y.conn.ID()) != 0 {
-						return false
-					}
-				}
-			}
-			return true
-		})
-		if !ok {
+		if !r.awaitCountersZero() {
 			r.res.infra = "rate counters were not reset within 10 s"
 			return ""
 		}
 		r.logf("rate counters seen reset on all nodes")
 		r.res.labels["rate-window-reset-observed"] = true
-		for _, X := range r.nodes {
-			X.cnt[procEcho] = map[int]int{}
-		}
 		return ""
 	}
 	return ""
 }
 
 func runScenario(s escn) *seqResult {
+	if s.Multi {
+		return runMultiScenario(s)
+	}
 	res := &seqResult{labels: map[string]bool{}}
 	r := &erun{s: s, start: time.Now(), res: res}
 	defer r.teardown()
@@ -1151,11 +1517,22 @@ func runScenario(s escn) *seqResult {
 		res.infra = "setup: " + err.Error()
 		return res
 	}
+	r.started = time.Now()
 	var ips []string
 	for _, n := range r.nodes {
 		ips = append(ips, n.ip)
 	}
 	r.logf("scenario legal=%v nodes=%v security=%s expiry=%ds sweep=%dms limit=%d penalty=%d blacklist: node %d lists node %d (form %d) dialOnly=node %d", s.Legal, ips, s.Security, s.ExpiryS, s.SweepMs, s.Limit, s.Penalty, s.BlackBy, s.BlackOf, s.BlackF, s.DialOnly)
+	if len(s.PL) > 0 {
+		r.logf("procedures %v: limits %v, penalties %v (own counter per procedure and peer)", echoProcs, s.PL, s.PP)
+	}
+	if s.legalSem() {
+		r.logf("rate-limit interval %v (mirror=%v: only node 0 applies the limits above)", s.rateInterval(), s.Mirror)
+		res.labels[fmt.Sprintf("e2e-rate-interval:%v", s.rateInterval())] = true
+	}
+	if s.Mirror {
+		res.labels["e2e-mirror"] = true
+	}
 	if s.V6 {
 		res.labels["e2e-ipv6"] = true
 	}
@@ -1191,11 +1568,12 @@ func runScenario(s escn) *seqResult {
 	}
 	var key strings.Builder
 	fmt.Fprintf(&key, "%v|%v|%s|%d|%d|%d|%d|%d>%d.%d|D%d|", s.Legal, ips, s.Security, s.ExpiryS, s.SweepMs, s.Limit, s.Penalty, s.BlackBy, s.BlackOf, s.BlackF, s.DialOnly)
+	fmt.Fprintf(&key, "%v|%v|%d|%v|", s.PL, s.PP, s.RateMs, s.Mirror)
 	for _, e := range s.Events {
 		if e.From >= s.N || e.To >= s.N || e.From == e.To {
 			continue
 		}
-		fmt.Fprintf(&key, "%s.%d.%d.%s.%d.%d.%x;", e.Kind, e.From, e.To, e.Burst, e.Extra, e.K, e.Bytes)
+		fmt.Fprintf(&key, "%s.%d.%d.%s.%d.%d.%x.%d;", e.Kind, e.From, e.To, e.Burst, e.Extra, e.K, e.Bytes, e.Proc)
 		res.labels["event:"+e.Kind] = true
 		if v := r.runEvent(e); v != "" {
 			res.violation = v
@@ -1225,7 +1603,7 @@ func runScenario(s escn) *seqResult {
 	if s.Legal {
 		res.labels["e2e-legal-only"] = true
 		// legal-only scenarios count as non-trivial when traffic reached the limit or crossed a counter reset
-		if res.labels["burst-exactly-to-limit"] {
+		if res.labels["burst-exactly-to-limit"] || res.labels["legal-mix:sum-over-procedures-exceeds-a-single-limit"] {
 			res.nontrivial = true
 		}
 	}
